@@ -308,29 +308,43 @@ func (r *Recorder) Check(tb TB, ok bool, key string, c any, format string, args 
 // driver's job timeout fires) the driver re-runs this case alone and reports a hang only if it times
 // out again. Cleared by Done.
 func (r *Recorder) Pending(c any) {
-	if r.out == "" {
+	dir := os.Getenv("VERIF_OUT")
+	if dir == "" {
 		return
 	}
 	pendingSince.Store(time.Now().UnixNano())
 	watchdogOnce.Do(startWatchdog)
+	if os.Getenv("VERIF_REPLAY") != "" {
+		return // the driver is re-running one saved case alone: the watchdog is all that is needed
+	}
 	raw, err := json.Marshal(c)
 	if err != nil {
 		return
 	}
 	rep := Replay{Property: r.Prop, Test: r.Test, Key: "hang", Message: "the call did not return within the job's time limit", Tier: r.tier, Seed: r.seed, Case: raw}
 	b, _ := json.Marshal(rep)
-	os.WriteFile(filepath.Join(r.out, fmt.Sprintf("pending-%s-%d.json", r.Test, r.shard)), b, 0o644)
+	os.WriteFile(r.pendingPath(dir), b, 0o644)
+}
+
+// the pending file is named after the JOB the driver started (a saved input replayed by TestRegress belongs to
+// another test than the job), its content names the test whose replay function understands the case
+func (r *Recorder) pendingPath(dir string) string {
+	job := os.Getenv("VERIF_JOB")
+	if job == "" {
+		job = r.Test
+	}
+	return filepath.Join(dir, fmt.Sprintf("pending-%s-%d.json", job, r.shard))
 }
 
 func (r *Recorder) Done() {
 	pendingSince.Store(0)
-	if r.out != "" {
-		os.Remove(filepath.Join(r.out, fmt.Sprintf("pending-%s-%d.json", r.Test, r.shard)))
+	if dir := os.Getenv("VERIF_OUT"); dir != "" && os.Getenv("VERIF_REPLAY") == "" {
+		os.Remove(r.pendingPath(dir))
 	}
 }
 
 // The in-process watchdog: a case announced with Pending that has not reached Done within VERIF_CASE_LIMIT seconds
-// (default 300) ends the process with exit code 97, leaving the pending file; the driver then re-runs that one case
+// (default 120) ends the process with exit code 97, leaving the pending file; the driver then re-runs that one case
 // alone under its own limit and only a second failure to return is reported as a hang.
 var (
 	pendingSince atomic.Int64
@@ -338,7 +352,7 @@ var (
 )
 
 func startWatchdog() {
-	limit := 300
+	limit := 120
 	if v, err := strconv.Atoi(os.Getenv("VERIF_CASE_LIMIT")); err == nil && v > 0 {
 		limit = v
 	}
